@@ -30,6 +30,7 @@ NOTE = {
  "C08": "Trusted: kani-compiler's lowering, CBMC 6.11 + cadical, cvc5 1.0 / z3 5.x, the MIR interpreter (validated against the real functions on random vectors each run), harness-side reference arithmetic. Moduli are a concrete family; symbolic moduli and symbolic x symbolic 64-bit products are outside. Kernels not decided within the per-query cap are listed in the evidence and are outside the claim of that run.",
 }
 NA = {
+ "C17": "not applicable to this technique: the property quantifies over thread interleavings; Kani/CBMC as installed has no model of threads (std::thread is unsupported), so no schedule other than a sequential one can be made symbolic. A sequential-history harness over the real Decryptor cache (c17_key_power_cache_sequential_orders: the cache never shrinks, a smaller request after a larger one returns the same plaintext) is kept as an unclaimed diagnostic; it does not decide linearizability.",
  "C20": "not applicable to solver-based checking within reach: deciding that homomorphic matrix products / convolutions decrypt to the plaintext result needs batch encoding, encryption, plaintext multiplication, rotations with Galois keys, LWE packing and decryption together at N >= 8 with several ciphertexts; measured costs (10-30 CPU-minutes for ONE evaluator operation at N=2) put the smallest instance orders of magnitude beyond a solver run, and checking only the block-search index arithmetic would not decide the property.",
 }
 DEFAULT_NA = "no check built yet (build round in progress); not claimed"
